@@ -4,6 +4,7 @@ package c17
 
 import (
 	"fmt"
+	"math"
 	"sort"
 	"testing"
 
@@ -194,6 +195,9 @@ func genCase(t *rapid.T) Case {
 		ms = n
 	case 5:
 		ms = n + 3
+		if gen.Chance(t, 1, 3, "extreme") { // "no limit": the largest values an int32 holds
+			ms = math.MaxInt32 - gen.Uniform(t, 4*n+8, "below-max")
+		}
 	default:
 		ms = 1 + gen.Uniform(t, n, "ms")
 	}
@@ -274,6 +278,16 @@ func TestGrid(t *testing.T) {
 		sort.Strings(keys)
 		for _, ms := range []int32{1, 2, 100, 255, 256, 257, 300} {
 			checker.Run(t, Case{Keys: vk.HexStrings(keys), MaxSize: ms, Class: "grid-full-fan-out"})
+		}
+	}
+	// maxSize at the top of int32 ("no limit") on small key lists
+	for n := 1; n <= 9; n++ {
+		keys := make([]string, n)
+		for i := range keys {
+			keys[i] = string([]byte{'k', byte('a' + i/3), byte('a' + i%3)})
+		}
+		for d := int32(0); d <= 20; d++ {
+			checker.Run(t, Case{Keys: vk.HexStrings(keys), MaxSize: math.MaxInt32 - d, Class: "grid-maxsize-extreme"})
 		}
 	}
 	for _, n := range []int{1<<18 + 7, 70001} { // very large key sets (size thresholds)
